@@ -80,9 +80,9 @@ func (v *loggerPlus) format(ctx Context, a ...interface{}) []interface{} {
 
 func (v *loggerPlus) formatf(ctx Context, format string, a ...interface{}) (string, []interface{}) {
 	if ctx == nil {
-		return "[%v] " + format, append([]interface{}{os.Getpid()}, a...)
+		return fmt.Sprintf("[%v] ", os.Getpid()) + format, a
 	} else if ctx, ok := ctx.(cidContext); ok {
-		return "[%v][%v] " + format, append([]interface{}{os.Getpid(), ctx.Cid()}, a...)
+		return fmt.Sprintf("[%v][%v] ", os.Getpid(), ctx.Cid()) + format, a
 	}
 	return format, a
 }
